@@ -154,4 +154,27 @@ mod verif_c14 {
         kani::cover!(!two);
         std::mem::forget((deps, r1, r2));
     }
+
+    // `difference` = what the old set holds that the new one does not (used to unlink dropped dependencies)
+    // @h name=c14_difference_semantics tier=quick cap=3 timeout=600 props=C14
+    #[kani::proof]
+    #[kani::unwind(7)]
+    fn c14_difference_semantics() {
+        let mut old = Dependencies::empty();
+        let mut new = Dependencies::empty();
+        old.verif_insert(fdep("a"));
+        old.verif_insert(fdep("b"));
+        new.verif_insert(fdep("b"));
+        new.verif_insert(fdep("c"));
+        let mut n = 0;
+        let mut saw_a = false;
+        for d in old.difference(&new) {
+            n += 1;
+            if *d == fdep("a") { saw_a = true; }
+            assert!(n <= 3);
+        }
+        assert!(n == 1 && saw_a, "difference(old, new) must yield exactly the dependencies that were dropped");
+        kani::cover!(true);
+        std::mem::forget((old, new));
+    }
 }
